@@ -81,3 +81,17 @@ CORPUS += [
         expect=[('C07.S', 'GeneralNodeHeightTransform::log-determinant-is-a-function-of-its-arguments')],
         more=[dict(scope='GeneralNodeHeightTransform._call', old='return heights', new='self._last_log_det = torch.log(heights[..., self._det_indices] - self._bounds[self.taxa_count:-1]).sum(-1)\nreturn heights')]),
 ]
+CORPUS += [
+    Mut('c07-log-difference-inverse-reads-y-by-node-number', 'torchtree/evolution/rate_transform.py', '', "        return rates[..., indices[1]] - rates[..., indices[0]]\n\n    def _inverse(self, y) -> torch.Tensor:\n        raise NotImplementedError\n",
+        "        return rates[..., indices[1]] - rates[..., indices[0]]\n\n    def _inverse(self, y) -> torch.Tensor:\n        out = [None] * (y.shape[-1] + 1)\n        out[-1] = torch.zeros(y.shape[:-1] + (1,), dtype=y.dtype)\n"
+        "        for parent, node in self._tree_model.preorder.tolist():\n            out[node] = out[parent] + y[..., node : node + 1]\n        return torch.cat(out[:-1], -1).exp()\n",
+        mode='text', expect=[('C07.I', 'LogDifferenceRateTransform._inverse::y-addressed-by-its-position-in-the-pre-order-table')]),
+    Mut('c07-benign-log-difference-inverse-by-position', 'torchtree/evolution/rate_transform.py', '', "        return rates[..., indices[1]] - rates[..., indices[0]]\n\n    def _inverse(self, y) -> torch.Tensor:\n        raise NotImplementedError\n",
+        "        return rates[..., indices[1]] - rates[..., indices[0]]\n\n    def _inverse(self, y) -> torch.Tensor:\n        out = [None] * (y.shape[-1] + 1)\n        out[-1] = torch.zeros(y.shape[:-1] + (1,), dtype=y.dtype)\n"
+        "        for k, (parent, node) in enumerate(self._tree_model.preorder.tolist()):\n            out[node] = out[parent] + y[..., k : k + 1]\n        return torch.cat(out[:-1], -1).exp()\n",
+        mode='text', benign=True),
+]
+CORPUS += [
+    Mut('c07-view-setter-tells-its-own-listeners-only', 'torchtree/core/parameter.py', '', "            self.parameter.tensor[..., self.indices] = tensor\n        self.parameter.fire_parameter_changed()\n",
+        "            self.parameter.tensor[..., self.indices] = tensor\n        self.fire_parameter_changed()\n", mode='text', expect=[('C07.C', 'in-place::torchtree.core.parameter::ViewParameter.tensor')]),
+]
